@@ -155,8 +155,11 @@ class Report:
             ev["coverage"]["notes"] = self.notes
         if self.known:
             ev["coverage"]["known_findings"] = sorted(self.known)
-        os.makedirs(os.path.join(ROOT, "evidence"), exist_ok=True)
-        with open(os.path.join(ROOT, "evidence", self.prop + ".json"), "w") as fh:
+        # evidence/ describes /repo; a run against a scratch checkout (VERIF_REPO) writes elsewhere
+        evdir = os.path.join(ROOT, "evidence") if os.path.abspath(REPO) == "/repo" else \
+            os.path.join(BUILD, "evidence-scratch")
+        os.makedirs(evdir, exist_ok=True)
+        with open(os.path.join(evdir, self.prop + ".json"), "w") as fh:
             json.dump(ev, fh, indent=1, default=str)
         for fid, what in sorted(self.known.items()):
             print("KNOWN-FINDING: property=%s %s (%s)" % (self.prop, what, fid))
